@@ -13,7 +13,7 @@ From Coq Require Import String.
 From Coq Require Import List NArith Bool.
 From SNT Require Import Base.Outcome Keys.KeyMap Keys.KeyParse Keys.KeyOrder
   Keys.KeyMapProofs Keys.KeyMapDict Keys.KeyMapEnum Keys.KeyMapMatcher Keys.KeyMapInst
-  Keys.KeyParseProofs Keys.KeyParseRoundTrip.
+  Keys.KeyParseProofs Keys.KeyParseRoundTrip Gen.C18Keys Keys.KeyOrderGen.
 Import ListNotations.
 Local Open Scope N_scope.
 
@@ -43,10 +43,11 @@ Section Statements.
         /\ (forall c' v', In (c', v') (spec_build h) -> proper_prefix key_cmp c c' = false)).
   Proof. intros h c. exact (k_meaning (build h) (spec_build h) c (k_repr_build h)). Qed.
 
-  (* "bound and not superseded", in terms of the history alone: c is bound to v
+  (* specification-side fact (about the dictionary only; it validates `reg` against the property text):
+     "bound and not superseded", in terms of the history alone: c is bound to v
      iff (c, v) was registered and no chord related to c (a prefix, an
      extension, or c itself) has been registered since — last writer wins *)
-  Theorem C18_last_writer : forall (h : history) (c : chord) (v : V),
+  Lemma C18_last_writer : forall (h : history) (c : chord) (v : V),
     In (c, v) (spec_build h) <->
     exists h1 h2, h = h1 ++ (c, v) :: h2 /\ c <> []
                   /\ (forall c2 v2, In (c2, v2) h2 -> c2 = [] \/ related key_cmp c2 c = false).
@@ -94,9 +95,9 @@ Section Statements.
     split; [exact (proj2 (k_enum t d R)) | exact (repr_pf _ _ _ R)].
   Qed.
 
-  (* what an override leaves bound: everything of the other map, and of this
+  (* specification-side fact: what an override leaves bound: everything of the other map, and of this
      map the chords unrelated to every chord of the other *)
-  Theorem C18_override_entries : forall (d o : dict key V) x,
+  Lemma C18_override_entries : forall (d o : dict key V) x,
     In x (spec_override key_cmp d o) <->
     In x o \/ (In x d /\ forall q, In q o -> related key_cmp (fst q) (fst x) = false).
   Proof. exact k_In_override. Qed.
@@ -107,7 +108,7 @@ Section Statements.
   (* every key sequence, every pending state: the coded two-pass loop computes the same as the
      matcher described over the dictionary (spec_handle).  This is a refinement of the code's loop to
      the dictionary, not yet the English clauses: those are the next four theorems. *)
-  Theorem C18_matcher_refines : forall (m : mexp) (keys st : chord),
+  Lemma C18_matcher_refines : forall (m : mexp) (keys st : chord),
     run key_cmp (eval_trie key_cmp m) st keys = spec_run key_cmp (eval_dict key_cmp m : dict key V) st keys.
   Proof. intros m. exact (k_run_spec _ _ (k_repr_mexp m)). Qed.
 
@@ -172,8 +173,28 @@ Proof.
   intros lower LS. split; [exact (name_roundtrip lower LS) | split; [exact (key_roundtrip lower LS) | exact (chord_roundtrip lower LS)]].
 Qed.
 
-(* the derived order on keys is a strict total order (what BTreeMap relies on) *)
-Theorem C18_key_order :
+(* the order model is the source's: every KeyName constructor of the model sits at the position its
+   variant has in `pub enum KeyName` of src/keys.rs (what the derived Ord compares first), and the
+   modifier masks of the parse / print tables are the source's KeyMod constants; both re-extracted from
+   the source on every run (translate/c18keys.py -> Gen/C18Keys.v) *)
+Theorem C18_key_order_is_source_order :
+  (forall n : key_name, nth_error keyname_variants (N.to_nat (name_idx n)) = Some (name_label n))
+  /\ List.length keyname_variants = 22%nat
+  /\ forallb (fun p => match const_of (upper (fst p)) with Some b => N.eqb b (snd p) | None => false end) mod_parse_table = true
+  /\ forallb (fun p => match const_of (upper (snd p)) with Some b => N.eqb b (fst p) | None => false end) mod_print_table = true.
+Proof.
+  destruct name_idx_is_source_order as [H1 H2]. destruct mod_tables_are_source_consts as [H3 H4].
+  exact (conj H1 (conj H2 (conj H3 H4))).
+Qed.
+
+(* specification-side fact (says nothing about the code): no matcher whatsoever satisfies both matcher
+   clauses as the property text words them, so the known finding has no repair *)
+Lemma C18_clauses_incompatible : forall (v1 v2 : N) (o1 o2 o3 : option N),
+  v1 <> v2 -> [o1; o2; o3] = fires_at_last v1 3 -> [o3] = fires_at_last v2 1 -> False.
+Proof. exact clauses_incompatible. Qed.
+
+(* specification-side fact: the derived order on keys is a strict total order (what BTreeMap relies on) *)
+Lemma C18_key_order :
   (forall a b, key_cmp a b = Eq <-> a = b)
   /\ (forall a b, key_cmp a b = CompOpp (key_cmp b a))
   /\ (forall a b c, key_cmp a b = Lt -> key_cmp b c = Lt -> key_cmp a c = Lt).
@@ -225,6 +246,24 @@ Proof.
   - cbn. intros c' v' [E|[E|[]]] r; injection E as <- _; discriminate.
   - cbn. right. left. reflexivity.
 Qed.
+
+(* the matcher theorems on a map built with override and clear, from a non-empty pending state *)
+Example C18_matcher_mexp_example :
+  let a := MRegister (MRegister (MClear (MRegister MNew [kc 98] 9)) [kc 97; ctrl_x; kc 99] 1) [kc 99] 2 in
+  let m : mexp := MOverride (MRegister MNew [kc 120] 5) a in
+  let t := eval_trie key_cmp m in
+  eval_dict key_cmp m = [([kc 99], 2); ([kc 97; ctrl_x; kc 99], 1); ([kc 120], 5)]
+  (* recovers_unless_continues, pending [kc 97], unbound key kc 122: [kc 97; kc 122] is not a prefix *)
+  /\ lookup key_cmp t ([kc 97] ++ [kc 122]) = Failure
+  /\ lookup_state key_cmp t [kc 97] (kc 122) = ([kc 122], None)
+  /\ run key_cmp t [kc 122] [kc 97; ctrl_x; kc 99] = ([], [None; None; Some 1])
+  (* the excluded class: ctrl_x begins no chord but continues the pending [kc 97] *)
+  /\ lookup key_cmp t ([kc 97] ++ [ctrl_x]) = Continue
+  /\ run key_cmp t [kc 97] [ctrl_x; kc 99] = ([], [None; Some 1])
+  (* fires_only_bound: second pass *)
+  /\ lookup_state key_cmp t [kc 97] (kc 120) = ([], Some 5)
+  /\ lookup key_cmp t ([kc 97] ++ [kc 120]) = Failure.
+Proof. vm_compute. repeat split; reflexivity. Qed.
 
 Example C18_override_example :
   let a := MRegister (MRegister MNew [ctrl_x; kc 102] 1) [kc 97] 2 in
